@@ -6,7 +6,7 @@ from props import readcheck as RC
 ID = "C20"
 RULE = ("each case is a group: the blocking iterator over the whole input, and TagIteratorAsync (direct next() calls and the into_stream() "
         "adapter, driven by futures::executor::block_on over a scripted AsyncRead) under a poll schedule: everything in one read, exhaustive "
-        "partitions of small inputs, random partitions, few-byte reads, inputs above 64 KiB, random buffered sets; a third of the schedules contain polls that answer Poll::Pending (woken at once, polled again).  Oracle: identical items and "
+        "partitions of small inputs, random partitions, few-byte reads, inputs above 64 KiB (many small elements; one 20-150 KB element early in the document), random buffered sets; a third of the schedules contain polls that answer Poll::Pending (woken at once, polled again).  Oracle: identical items and "
         "offsets, ending once.  Schedules on which a call finds the inner iterator short of data before the source is exhausted ('starved', decided "
         "by props/readcheck.py starved from the schedule and the blocking parse alone) are the known finding D15: there only the property oracle is "
         "applied and a difference is reported as KNOWN-FINDING.  non-trivial = blocking run emits >= 3 items; distinct = distinct group")
@@ -57,6 +57,15 @@ def generate(rng, tier):
             lines = ["R %s %s - %s N" % (sp.s(), E.cfg_str(), data.hex()), "A %s %s %s %s d" % (sp.s(), E.cfg_str(), E.script_str(scr), data.hex()),
                      "A %s %s %s %s s" % (sp.s(), E.cfg_str(), E.script_str(scr), data.hex())]
             cases.append(Case(lines, "huge", {"script": scr, "buffered": False, "mode": "huge"}))
+    # one big element early in a document larger than a fraction of the transfer buffer: with 64 KiB delivered per call the data stays
+    # ahead of the parser (the big element is the third item, 192 KiB have been offered by then); a smaller transfer buffer would starve it
+    for n in ((20000, 40000, 60000, 100000, 150000) if thorough else (20000, 60000, 100000)):
+        nodes = [E.Node(("m", E.ROOT), rng.choice(["u", None]), [E.Node(("m", E.PARENT), None, [E.Node(("b", E.CHILD, bytes([n & 0xFF]) * n))] +
+                 [E.Node(("b", E.CHILD, bytes([k]) * 50)) for k in range(20)]), E.Node(("u", E.INT, 7))])]
+        data = E.encode(nodes)
+        lines = ["R %s %s - %s N" % (sp.s(), E.cfg_str(), data.hex()), "A %s %s - %s d" % (sp.s(), E.cfg_str(), data.hex()),
+                 "A %s %s - %s s" % (sp.s(), E.cfg_str(), data.hex())]
+        cases.append(Case(lines, "bigearly", {"script": [], "buffered": False, "mode": "bigearly"}))
     smalls = [bytes.fromhex("8183410280"), bytes.fromhex("81ff41018105")]
     if thorough:
         tries = 0
